@@ -2,10 +2,14 @@ package main
 
 import (
 	"fmt"
+	"os"
+	"path/filepath"
 	"reflect"
 	"runtime"
+	"sort"
 	"strings"
 	"sync"
+	"sync/atomic"
 	"time"
 
 	jwt "github.com/nats-io/jwt/v2"
@@ -345,6 +349,40 @@ func runC17(c *Ctx) {
 		}
 		c.count("accounts_filled_from_one_list")
 	}
+	// time-zone names of this machine's database, handed out one by one: every name is looked up for the first time
+	// during the concurrent phase (a name resolved before would hide a cache that is filled without synchronisation)
+	var zoneNames []string
+	filepath.Walk("/usr/share/zoneinfo", func(p string, info os.FileInfo, err error) error {
+		if err != nil || info.IsDir() {
+			return nil
+		}
+		rel := strings.TrimPrefix(p, "/usr/share/zoneinfo/")
+		if strings.HasPrefix(rel, "posix/") || strings.HasPrefix(rel, "right/") || !strings.Contains(rel, "/") || strings.Contains(rel, ".") {
+			return nil
+		}
+		zoneNames = append(zoneNames, rel)
+		return nil
+	})
+	sort.Strings(zoneNames)
+	var zoneNext int64
+	zoneWork := func() string {
+		var out []string
+		for k := 0; k < 3 && len(zoneNames) > 0; k++ {
+			z := zoneNames[int(atomic.AddInt64(&zoneNext, 1))%len(zoneNames)]
+			if _, err := time.LoadLocation(z); err != nil {
+				continue // not a zone this Go runtime can load
+			}
+			uc := jwt.NewUserClaims(kr.by["user"].pub)
+			uc.Locale = z
+			uc.Times = []jwt.TimeRange{{Start: "08:00:00", End: "17:00:00"}}
+			vr := jwt.CreateValidationResults()
+			uc.Validate(vr)
+			if !vr.IsEmpty() {
+				out = append(out, fmt.Sprintf("%s: %d issues", z, len(vr.Issues)))
+			}
+		}
+		return strings.Join(out, "; ")
+	}
 	distinct := map[string]bool{}
 	for _, procs := range []int{1, 2, 4, 16} {
 		old := runtime.GOMAXPROCS(procs)
@@ -353,12 +391,16 @@ func runC17(c *Ctx) {
 			res := make([]string, workers)
 			resS := make([]string, workers)
 			resF := make([]string, workers)
+			resZ := make([]string, workers)
 			start := make(chan struct{})
 			for w := 0; w < workers; w++ {
 				wg.Add(1)
 				go func(w int) {
 					defer wg.Done()
 					<-start
+					if z := zoneWork(); z != "" {
+						resZ[w] = z
+					}
 					res[w] = norm(c17Work(tokens, names, useed, userTok))
 					resS[w] = norm(c17Shared(shared, sharedU, sharedA))
 					resF[w] = norm(c17Fresh(kr))
@@ -369,6 +411,9 @@ func runC17(c *Ctx) {
 			for w := 0; w < workers; w++ {
 				c.sum.Evaluations++
 				c.sum.ImplChecks++
+				if resZ[w] != "" {
+					c.violation("C17: a user claim with a valid time zone validated concurrently raises issues", map[string]interface{}{"gomaxprocs": procs, "round": r, "worker": w, "issues": resZ[w]})
+				}
 				if res[w] != base {
 					c.violation("C17: a concurrent run on the worker's own objects gives other results than the sequential run",
 						map[string]interface{}{"gomaxprocs": procs, "round": r, "worker": w, "diff": firstDiff(base, res[w])})
